@@ -3,7 +3,7 @@
 (* Union of all codec modules: one expectation function Exp(op, a) used by *)
 (* both conformance directions, one law predicate and the bounded grids.   *)
 (***************************************************************************)
-EXTENDS Pus1, Cfdp, Cds, ByteField
+EXTENDS Pus1, Cfdp, Cds, ByteField, Uslp
 
 Exp(op, a) == IF op \in SpOps THEN SpExp(op, a)
               ELSE IF op \in PusOps THEN PusExp(op, a)
@@ -11,6 +11,7 @@ Exp(op, a) == IF op \in SpOps THEN SpExp(op, a)
               ELSE IF op \in CfdpOps THEN CfdpExp(op, a)
               ELSE IF op \in CdsOps THEN CdsExp(op, a)
               ELSE IF op \in BfOps THEN BfExp(op, a)
+              ELSE IF op \in UslpOps THEN UslpExp(op, a)
               ELSE [unknown |-> op]
 
 Law(op, a) == IF op \in SpOps THEN SpLaw(op, a)
@@ -19,6 +20,7 @@ Law(op, a) == IF op \in SpOps THEN SpLaw(op, a)
               ELSE IF op \in CfdpOps THEN CfdpLaw(op, a)
               ELSE IF op \in CdsOps THEN CdsLaw(op, a)
               ELSE IF op \in BfOps THEN BfLaw(op, a)
+              ELSE IF op \in UslpOps THEN UslpLaw(op, a)
               ELSE TRUE
 
 CONSTANT Tier
@@ -34,6 +36,7 @@ NParts(area) == CASE area = "cfdphdr" -> CfdpHdrNParts
                   [] area = "pus1" -> Pus1NParts
                   [] area = "cds" -> CdsNParts
                   [] area = "bf" -> BfNParts
+                  [] area = "uslp" -> UslpNParts
 
 GridPart(area, i) == CASE area = "cfdphdr" -> CfdpHdrGridPart(i, Tier)
                        [] area = "tlv" -> TlvGridPart(i)
@@ -46,4 +49,5 @@ GridPart(area, i) == CASE area = "cfdphdr" -> CfdpHdrGridPart(i, Tier)
                        [] area = "pus1" -> Pus1GridPart(i)
                        [] area = "cds" -> CdsGridPart(i)
                        [] area = "bf" -> BfGridPart(i)
+                       [] area = "uslp" -> UslpGridPart(i)
 =============================================================================
